@@ -2,5 +2,5 @@
    only; the float record is supplied by the hand-written driver). *)
 From Coq Require Import ZArith List Extraction ExtrOcamlBasic.
 From Sky Require Import Result Num M_Minimize.
-Extraction "model.ml" maximize_nr minimize_nr minimize_scan minimize maximize_gen
+Extraction "model.ml" maximize_nr maximize_scan closure_nr minimize_nr minimize_scan minimize maximize_gen
   nr1d nr1d_vec scan2d Z.of_nat Z.to_nat.
